@@ -203,4 +203,4 @@ def check(chk):
 
     # a datacenter / rack change reaches the policies as down(old location) -> relocate -> up(new location)
     chk.rule('C21.relocate', 'the control connection brackets set_location_info with profile_manager.on_down / on_up, in that order, so that policies file the host under its old datacenter when removing it')
-    chk.borrow('C42', {'C42.location': 'C21.relocate'}, 'the policy searches the new datacenter for the host, removes nothing and adds it a second time: duplicate / misplaced hosts in plans')
+    chk.borrow('C42', {'C42.location': 'C21.relocate', 'C42.live': 'C21.relocate'}, 'the policy searches the new datacenter for the host, removes nothing and adds it a second time: duplicate / misplaced hosts in plans')
